@@ -349,16 +349,19 @@ EXPORT_FMTS = [0, 2, 3, 4, 5, 9, 11]
 def export_cause(src, ref, out, i):
     """what differs between an export and the same export done first (stable key part)"""
     ctx = ref[max(0, i - 80):i + 30] + b' ' + out[max(0, i - 80):i + 30]
-    if re.search(rb'width|height', ctx):
-        return 'image-dimension'
-    if re.search(rb'<h\d|</h\d>|\\(part|chapter|section|subsection|subsubsection|paragraph|subparagraph|frametitle)\b|<outline|text:h |^#+ |<li><a href="#|</a></li>', ctx, re.M):
+    near = ref[max(0, i - 24):i + 8] + b' ' + out[max(0, i - 24):i + 8]
+    if re.search(rb'<h\d|</h\d>|\\(part|chapter|section|subsection|subsubsection|paragraph|subparagraph|frametitle)\b|<outline|text:h |^#+ |<li><a href="#|</a></li>', ctx, re.M) and \
+            not re.search(rb'(width|height)="?\d', near):
         # some writers trim the blanks / line break at the end of a heading *in the tree* (header_clean_trailing_whitespace), others read them
         return 'heading-text'
+    if re.search(rb'(width|height)[=:]"?\d', near):
+        return 'image-dimension'
     if re.search(rb'<abbr|\\ac\{|\\gls\{|\\acrshort|\\acrfull', ctx) and b'[>' in src:
         # the search for abbreviations splits text tokens in the tree; the next export searches the already split tokens
         return 'abbreviation-search'
-    if re.search(rb'\[[>?]\(', src) and (ref[i:i + 1] in (b'>', b'?') or out[i:i + 1] in (b'>', b'?')):
-        # the content tokens of an inline abbreviation / glossary entry are re-parented by the first export (recorded for C15 as well)
+    if re.search(rb'\[[>?^#]', src) and (ref[i:i + 1] in (b'>', b'?', b'^', b'#') or out[i:i + 1] in (b'>', b'?', b'^', b'#')):
+        # the content tokens of an inline note ('[>(abbr) text]', '[?(term) text]', '[^inline note]' ...) are re-parented by the first export
+        # (recorded for C15 as well): a later export prints the marker character as text
         return 'inline-note-content'
     return None
 
